@@ -438,6 +438,12 @@ def run(F, rep, tier):
         oks_ = [(bb, s_) for bb, s_ in wb_.aggregates() if s_[1] == [0] and s_[2][2] == 'std::result::Result' and s_[2][4] == 'Ok' and s_[2][5]]
         for bb, s_ in oks_:
             og = origins(wb_, s_[2][5][0], passthru=('new', 'from', 'into', 'branch', 'from_output'))
+            if any(o[0] == 'agg' and o[2] == 'Some' for o in og):
+                # look inside Some(..): the payloads of the Option::Some values built in this wrapper
+                og = {o for o in og if not (o[0] == 'agg' and o[2] == 'Some')}
+                for bb2, s2 in wb_.aggregates():
+                    if s2[2][2] == 'std::option::Option' and s2[2][4] == 'Some' and s2[2][5]:
+                        og |= origins(wb_, s2[2][5][0], passthru=('new', 'from', 'into', 'branch', 'from_output'))
             frozen = [o for o in og if o[0] == 'call' and (is_ff(o[1]) or o[1].rsplit('::', 1)[-1] in ('collect', 'transpose', 'map'))]
             raw = [o for o in og if o[0] in ('param', 'payload') or (o[0] == 'call' and o[1].endswith('Clone>::clone'))]
             consts = [o for o in og if o[0] == 'agg']
